@@ -247,7 +247,7 @@ func (s *Server) HandleDaemonConn(ctx context.Context, conn *Conn) (err error) {
 	}
 
 	s.logger.Printf("flags: %+v", flags)
-	osenv := &rsyncos.Env{Stderr: s.stderr}
+	osenv := &rsyncos.Env{Stderr: s.stderr, NoExit: true}
 	pc := rsyncopts.NewContext(rsyncopts.NewOptionsWithGokrazyDefaults(osenv))
 	if err := pc.ParseArguments(osenv, flags); err != nil {
 		err = fmt.Errorf("parsing server args: %v", err)
@@ -326,7 +326,7 @@ func (s *Server) InternalHandleConn(ctx context.Context, conn *Conn, module *Mod
 }
 
 func (s *Server) HandleConnArgs(ctx context.Context, conn *Conn, module *Module, args []string) error {
-	osenv := &rsyncos.Env{Stderr: s.stderr}
+	osenv := &rsyncos.Env{Stderr: s.stderr, NoExit: true}
 	pc := rsyncopts.NewContext(rsyncopts.NewOptionsWithGokrazyDefaults(osenv))
 	if err := pc.ParseArguments(osenv, args); err != nil {
 		return fmt.Errorf("parsing server args: %v", err)
